@@ -22,7 +22,7 @@ from concurrent.futures import ThreadPoolExecutor
 
 VERIF = os.path.dirname(os.path.dirname(os.path.abspath(__file__)))
 REPO = os.environ.get('VERIF_REPO', '/repo')
-BUILD = os.path.join(VERIF, 'build')
+BUILD = os.environ.get('VERIF_BUILD') or os.path.join(VERIF, 'build')   # VERIF_BUILD: separate build dir for runs against a scratch tree
 NPROC = int(os.environ.get('VERIF_JOBS', '0')) or (os.cpu_count() or 4)
 
 # defines of the pinned build that matter for the code being encoded.  The pinned
@@ -241,6 +241,12 @@ def drive(pid, mod, tier, seed=0, only=None):
     logdir = os.path.join(BUILD, pid, 'logs')
     ctx = {'build': os.path.join(BUILD, pid), 'tier': tier, 'seed': seed, 'repo': REPO, 'verif': VERIF}
     os.makedirs(ctx['build'], exist_ok=True)
+    # two runs of the same property (e.g. quick and thorough started together) share build/<id>: serialise them
+    import fcntl
+    _lock = open(os.path.join(ctx['build'], '.lock'), 'w')
+    fcntl.flock(_lock, fcntl.LOCK_EX)
+    globals()['_build_lock'] = _lock
+    t0 = time.time()
     try:
         jobs = mod.plan(tier, ctx)
     except BuildError as e:
